@@ -3,10 +3,11 @@ from drv_sequencer import SequencerC09
 
 class Prop:
     ID = 'C09'
-    GEN = ['proc', 'enums', 'seq']
+    GEN = ['proc', 'enums', 'seq', 'node']
     MODEL_TARGETS = ['model/Sequencer.vo']
-    TARGETS = ['props/C09.vo']
+    TARGETS = ['props/C09.vo', 'props/C09node.vo']
     PROPS_FILE = 'props/C09.v'
+    PROPS_FILES = ['props/C09.v', 'props/C09node.v']
     SUITES = [SequencerC09()]
     RULE = ('closed-loop generated histories on the real Starter + Stopper (1-4 applications x 1-6 processes, start/stop sequences 0..4 at both levels, wait_exit / required / starting_failure_strategy random, startsecs / stopwaitsecs in {0,1,5,6,60}, expected loads making some placements impossible): scripted process behaviours (normal, slow, BACKOFF k times then FATAL or RUNNING, early exit expected / unexpected, never answering, stuck STARTING / STOPPING, immediate FATAL), each event dropped with probability 0 / 0.1 / 0.3, random interleaving with instance ticks, periodic checks, user requests (start/stop/restart application and process, start/stop applications, abort) and loss / return of instances (context part and commander part separated by an optional check); 1 case of 5 adds hostile events. A case is non-trivial when its rules hold at least two sequence groups and the history holds a forced state, an instance loss or a FATAL / EXITED event; distinct by the emitted request trace and length')
     ASSUMPTIONS = ['DistributionRules.ALL_INSTANCES only (ApplicationStartJobs.before is the identity); placement '
@@ -23,10 +24,15 @@ class Prop:
                    'go where the process is listed; requests made for one process by the user (start_process / '
                    'stop_process / restart_process) are outside the sequencing statements (one mark per request, '
                    'consumed by the next request for that process)',
-                   'ordering is proved per step of the agenda machine for every state (SEQ-shape: extremal group, only '
-                   'when nothing is current) and for every run for the emission facts; the history-level statements '
-                   'application_order / job_bound are refuted (known findings), start_request_order at history level is '
-                   'checked by the Coq spec evaluator on every generated trace but not proved']
+                   'ordering theorems: per step for every state (SEQ-shape: extremal group / extremal application sequence, '
+                   'only when nothing is current), per run for the emission facts, and along whole histories from the '
+                   'initial state of any configuration under the NAMED boolean hypotheses checked on every configuration '
+                   'of the run (guard_all): H_no_reentrant_next (a job pops no group while one of its groups is still '
+                   'processed; never violated on generated histories), H_no_add_commands (start_process / stop_process '
+                   'only for an application without job, i.e. no command added to an existing plan; ~11% of generated '
+                   'histories leave it) and H_no_reentrant_delete (a job leaves current_jobs only with nothing planned and '
+                   'no group in progress; ~2% leave it: the class of the known finding); without the last one '
+                   'application_order / job_bound are refuted (known findings)']
     TRUSTED = ['modelled (not verified): commander.py Starter/Stopper/ApplicationJobs/ProcessCommand, the slice of '
                'Context.on_process_state_event / invalidate_failed, ProcessStatus synthesis (ProcStatus.v), '
                'ApplicationStatus.update (required-based); extra_args, load requests, distribution rules other than '
